@@ -818,15 +818,18 @@ Section P4.
     | [] => POk ts
     | TEsac :: _ => POk ts
     | _ =>
-        bind (pats_loop (S f) o (match ts with TLparen :: _ => length ts | _ => prev end)
-                        (match ts with TLparen :: r0 => r0 | _ => ts end)) (fun r0 =>
+        bind (match (match ts with TLparen :: r0 => r0 | _ => ts end) with
+              | [] => perr o [] ECasePatWords (match ts with TLparen :: _ => length ts | _ => prev end)
+              | _ => pats_loop (S f) o (match ts with TLparen :: _ => length ts | _ => prev end)
+                        (match ts with TLparen :: r0 => r0 | _ => ts end)
+              end) (fun r0 =>
         bind (stmts px f o QCase [TEsac] true false (tl r0)) (fun v =>
           match fst v with
           | TDSemi :: r3 => case_items px f o (length (fst v)) (got_newl r3)
           | _ => POk (fst v)
           end))
     end.
-  Proof. intros. destruct ts as [|[] ?]; reflexivity. Qed.
+  Proof. intros. destruct ts as [|[] [|? ?]]; reflexivity. Qed.
 
   Lemma step_items : forall f, Pstmts r px f -> Pitems r px f -> Pitems r px (S f).
   Proof.
@@ -834,14 +837,14 @@ Section P4.
     destruct ts as [|t x]; [apply pre_g_eof; apply eof_items|].
     rewrite !items_S.
     (* continuation after the patterns *)
-    assert (K : forall n n' z, pre_l
-      (bind (pats_loop (S f) (S o) n (z ++ r)) (fun r0 =>
+    assert (K : forall n n' t0 z, pre_l
+      (bind (pats_loop (S f) (S o) n ((t0 :: z) ++ r)) (fun r0 =>
         bind (stmts px f (S o) QCase [TEsac] true false (tl r0)) (fun v =>
           match fst v with TDSemi :: r3 => case_items px f (S o) (length (fst v)) (got_newl r3) | _ => POk (fst v) end)))
-      (bind (pats_loop (S f) (S o) n' z) (fun r0 =>
+      (bind (pats_loop (S f) (S o) n' (t0 :: z)) (fun r0 =>
         bind (stmts px f (S o) QCase [TEsac] true false (tl r0)) (fun v =>
           match fst v with TDSemi :: r3 => case_items px f (S o) (length (fst v)) (got_newl r3) | _ => POk (fst v) end)))).
-    { intros n n' z.
+    { intros n n' t0 z.
       assert (K2 : forall w, pre_l
         (bind (stmts px f (S o) QCase [TEsac] true false (w ++ r)) (fun v =>
           match fst v with TDSemi :: r3 => case_items px f (S o) (length (fst v)) (got_newl r3) | _ => POk (fst v) end))
@@ -859,9 +862,11 @@ Section P4.
       - intros v v' [Hne ->]. destruct v' as [|t1 y]; [congruence|]. simpl tl. apply K2.
       - intros a ->. simpl tl. eapply eof_bind; [apply (proj1 (eof_all px f))|].
         intros [a b] E. unfold end_lb in E. simpl in E. subst. simpl. eofr. }
-    destruct t; try apply (K prev prev' (_ :: x)).
+    destruct t; try apply (K prev prev' _ x).
     - (* TEsac *) apply (pre_l_lock r TEsac x).
-    - (* TLparen *) simpl app. apply K.
+    - (* TLparen *) destruct x as [|t1 x].
+      + (* the prefix ends right after '(' *) apply pre_g_eof. unfold bind, perr. simpl. reflexivity.
+      + simpl app. apply K.
   Qed.
 
   Lemma case_S : forall f o q ts, case_clause px (S f) o q ts =
